@@ -433,8 +433,12 @@ pub fn judge(c: &Case) -> Result<(), (String, String)> {
     if want.unspecified {
         // bounds only: at most `attempts` probes per Redirect, exactly one outcome
         // the reference keeps probing the unchanged URL until the attempts are used up, which is the most any reading allows
+        // ... and, however many probes a reading spends on the Location-less answer, the URL does not change any
+        // more: the original request, with its body, still goes where the reference sends it ("and then sends the
+        // original request with its body to the final URL")
         let budget: usize = want.run.wire.len();
-        if got.outcomes.len() == 1 && got.wire.len() <= budget && got.wire.iter().filter(|w| w.body_len > 0).count() <= 1 {
+        let real = |r: &Run| r.wire.iter().filter(|w| w.body_len > 0).cloned().collect::<Vec<_>>();
+        if got.outcomes.len() == 1 && got.wire.len() <= budget && real(&got) == real(&want.run) {
             return Ok(());
         }
         return Err(("redirect-bounds".into(), format!("{} requests and outcomes {:?}; the budget of the stack is {budget} requests and one outcome", got.wire.len(), got.outcomes)));
